@@ -108,10 +108,12 @@ impl Runner {
             "sei" => self.sei(toks[1], toks[2] == "1"),
             "avcc" => self.avcc(&unhex(toks.get(1).copied().unwrap_or(""))),
             "reset" => { self.ctx = Context::new(); "ok".into() }
+            "full" => "ok".into(),   // announces the complete NAL of the prefix cases that follow (used by the C17 oracle)
             "sps" => self.sps(&unhex(toks.get(1).copied().unwrap_or(""))),
             "pps" => self.pps(&unhex(toks.get(1).copied().unwrap_or(""))),
             "slice" => self.slice(unhex(toks[1])[0], &unhex(toks.get(2).copied().unwrap_or(""))),
             "bits" => self.bits(&toks[1..]),
+            "nalbits" => self.nalbits(&toks[1..]),
             "nal" => self.nal(toks[1], toks[2] == "1"),
             "derived" => self.derived(&unhex(toks.get(1).copied().unwrap_or(""))),
             "ctx" => self.ctxops(&toks[1..]),
@@ -300,9 +302,19 @@ impl Runner {
     /// bits <hex|-> ops…: ue se b u<n> i<n> more skip<n> finish seifinish
     fn bits(&mut self, t: &[&str]) -> String {
         let d = if t[0] == "-" { vec![] } else { unhex(t[0]) };
-        let mut br = Some(BitReader::new(&d[..]));
+        Self::bit_ops(BitReader::new(&d[..]), &t[1..])
+    }
+    /// nalbits <chunks of a NAL incl. header> <complete> ops…: the same operations on `RefNal::rbsp_bits()`
+    fn nalbits(&mut self, t: &[&str]) -> String {
+        let chunks = chunks_of(t[0]);
+        let refs: Vec<&[u8]> = chunks.iter().map(|c| &c[..]).collect();
+        let nal = RefNal::new(refs[0], &refs[1..], t[1] == "1");
+        Self::bit_ops(nal.rbsp_bits(), &t[2..])
+    }
+    fn bit_ops<R: BufRead + Clone>(reader: BitReader<R>, ops: &[&str]) -> String {
+        let mut br = Some(reader);
         let mut out = vec![];
-        for op in &t[1..] {
+        for op in ops {
             let r = match br.as_mut() { None => { out.push("-".to_string()); continue; } Some(r) => r };
             let res: Result<String, BitReaderError> = if *op == "ue" { r.read_ue("f").map(|v| v.to_string()) }
                 else if *op == "se" { r.read_se("f").map(|v| v.to_string()) }
@@ -409,18 +421,28 @@ impl Runner {
         }).unwrap_or_else(|| "nomsg".into())
     }
 
-    /// stream ops `p:<hex>` / `r`: the accumulating Annex B reader with a handler that parses every complete NAL
-    /// against a context it maintains; output: one item per complete NAL: `<nal hex>=<parse result>`
+    /// stream <policy> ops `p:<hex>` / `r`: the accumulating Annex B reader with a handler that parses NALs against a
+    /// context it maintains. Policy `B`: always Buffer, parse each complete NAL. Policy `H` (as in the crate's bench):
+    /// for slice NALs try the header on every invocation, Buffer while it would block, Ignore as soon as it parses or
+    /// fails; other NALs are buffered until complete. Output: one item per parse: `<bytes shown>=<result>`
     fn stream(&mut self, ops: &[&str]) -> String {
+        let policy = ops[0].to_string(); let ops = &ops[1..];
         let local = std::rc::Rc::new(std::cell::RefCell::new(Runner { ctx: Context::new(), sei_types: self.sei_types.clone(), t35_names: self.t35_names.clone() }));
         let out: std::rc::Rc<std::cell::RefCell<Vec<String>>> = Default::default();
         let o2 = out.clone(); let l2 = local.clone();
         {
             let handler = move |nal: RefNal<'_>| {
-                if nal.is_complete() {
-                    let mut bytes = vec![]; nal.reader().read_to_end(&mut bytes).unwrap();
+                let ty = nal.header().map(|h| h.nal_unit_type().id()).unwrap_or(255);
+                let shown = || { let mut bytes = vec![]; let mut rd = nal.reader(); loop { match rd.fill_buf() { Ok(b) if !b.is_empty() => { let l = b.len(); bytes.extend_from_slice(b); rd.consume(l); } _ => break } } bytes };
+                if policy == "H" && (ty == 1 || ty == 5) {
                     let res = l2.borrow_mut().nal_on(&nal);
-                    o2.borrow_mut().push(format!("{}={}", hex(&bytes), res.replace(' ', "_")));
+                    if res.ends_with("WouldBlock") { return NalInterest::Buffer; }
+                    o2.borrow_mut().push(format!("{}={}", hex(&shown()), res.replace(' ', "_")));
+                    return NalInterest::Ignore;
+                }
+                if nal.is_complete() {
+                    let res = l2.borrow_mut().nal_on(&nal);
+                    o2.borrow_mut().push(format!("{}={}", hex(&shown()), res.replace(' ', "_")));
                 }
                 NalInterest::Buffer
             };
